@@ -2,6 +2,7 @@
 package main
 
 import (
+	"math"
 	"encoding/json"
 	"math/rand"
 
@@ -23,6 +24,18 @@ func (a *ad) Reset(s json.RawMessage) error {
 	return nil
 }
 
+// ix maps the specification's Lo / Hi to the extreme ints
+func ix(op core.Op, i int) int {
+	v := core.ArgInt(op, i)
+	switch v {
+	case -2000000000:
+		return math.MinInt
+	case 2000000000:
+		return math.MaxInt
+	}
+	return v
+}
+
 func (a *ad) Apply(op core.Op) (interface{}, error) {
 	switch op.N {
 	case "Append":
@@ -36,10 +49,10 @@ func (a *ad) Apply(op core.Op) (interface{}, error) {
 		scribble(arg)
 		return []int{}, nil
 	case "Get":
-		v, ok := a.f.Get(core.ArgInt(op, 0))
+		v, ok := a.f.Get(ix(op, 0))
 		return []interface{}{v, ok}, nil
 	case "Remove":
-		v, ok := a.f.Remove(core.ArgInt(op, 0))
+		v, ok := a.f.Remove(ix(op, 0))
 		return []interface{}{v, ok}, nil
 	case "Pop":
 		v, ok := a.f.Pop()
@@ -48,7 +61,7 @@ func (a *ad) Apply(op core.Op) (interface{}, error) {
 		v, ok := a.f.Shift()
 		return []interface{}{v, ok}, nil
 	case "SubSlice":
-		nf := a.f.SubSlice(core.ArgInt(op, 0), core.ArgInt(op, 1))
+		nf := a.f.SubSlice(ix(op, 0), ix(op, 1))
 		out := append([]int{}, nf.Values...)
 		if nf.Len() != len(out) {
 			out = append(out, -999)
